@@ -235,22 +235,53 @@ func runObligations(obls []*Obligation, header *Universe, timeout time.Duration,
 		}
 		return p
 	}
+	tm := func(label string, t0 time.Time) {
+		if os.Getenv("STICKVC_TIMING") != "" {
+			n := 0
+			for _, o := range todo {
+				if o.Status == "unsat" {
+					n++
+				}
+			}
+			fmt.Fprintf(os.Stderr, "TIMING %s %.1fs proved=%d/%d\n", label, time.Since(t0).Seconds(), n, len(todo))
+		}
+	}
+	t0 := time.Now()
+	if !all {
+		runBatches(todo, header)
+	}
+	tm("batch", t0)
 	if !all {
 		short := 4 * time.Second
 		if timeout < short {
 			short = timeout
 		}
-		phase(todo, 16, func(o *Obligation) {
+		phase(pending(), 8, func(o *Obligation) {
+			// both z3 versions raced: each decides goals on which the other times out
 			q := o.Query(header, true)
-			r := runSolver(solvers[0], q, filepath.Join(getWorkDir(), fmt.Sprintf("p1_%d", time.Now().UnixNano())), short, context.Background())
-			o.Seconds += r.Seconds
-			if r.Status == "unsat" || r.Status == "sat" {
-				o.Status, o.Solver, o.Output = r.Status, r.Solver, r.Output
-			} else {
-				o.Status, o.Solver, o.Output = "unknown", r.Solver, r.Output
+			ctx, cancel := context.WithCancel(context.Background())
+			defer cancel()
+			ch := make(chan SolverResult, 2)
+			for _, sp := range solvers[:2] {
+				go func(sp solverSpec) {
+					ch <- runSolver(sp, q, filepath.Join(getWorkDir(), fmt.Sprintf("p1_%s_%d", sp.name, time.Now().UnixNano())), short, ctx)
+				}(sp)
+			}
+			o.Status = "unknown"
+			for i := 0; i < 2; i++ {
+				r := <-ch
+				if r.Seconds > o.Seconds {
+					o.Seconds = r.Seconds
+				}
+				if r.Status == "unsat" || r.Status == "sat" {
+					o.Status, o.Solver, o.Output = r.Status, r.Solver, r.Output
+					break
+				}
+				o.Solver, o.Output = r.Solver, r.Output
 			}
 		})
 	}
+	tm("phase1", t0)
 	if phase1Only {
 		return
 	}
@@ -259,42 +290,84 @@ func runObligations(obls []*Obligation, header *Universe, timeout time.Duration,
 		o.Status, o.Solver, o.Output = r.Status, r.Solver, r.Output
 		o.Seconds += r.Seconds
 	})
+	tm("phase2", t0)
 	phase(pending(), 3, func(o *Obligation) {
 		r, _ := solve(o.Query(header, true), o.Name, 4*timeout, false)
 		o.Status, o.Solver, o.Output = r.Status, r.Solver, r.Output
 		o.Seconds += r.Seconds
 	})
+	tm("phase3", t0)
 }
 
-// runCovers returns the obligations whose program point could not be shown reachable.
+// runCovers returns the obligations whose program point is provably unreachable under the assumptions
+// (a definite "unsat" of prefix + reach; "unknown" is not evidence of vacuity). The covers of one block
+// are checked in one incremental session with a short per-check budget.
 func runCovers(obls []*Obligation, header *Universe, timeout time.Duration) []*Obligation {
+	type gkey struct {
+		sc  *Script
+		blk int
+	}
+	groups := map[gkey][]*Obligation{}
+	var order []gkey
+	for _, o := range obls {
+		if o.Kind == "lemma" || o.script == nil {
+			continue
+		}
+		k := gkey{o.script, o.Blk}
+		if _, ok := groups[k]; !ok {
+			order = append(order, k)
+		}
+		groups[k] = append(groups[k], o)
+	}
 	sem := make(chan struct{}, 16)
 	var wg sync.WaitGroup
 	var mu sync.Mutex
 	var vac []*Obligation
-	for _, o := range obls {
-		if o.Kind == "lemma" {
-			continue
-		}
+	for _, k := range order {
+		g := groups[k]
 		wg.Add(1)
 		sem <- struct{}{}
-		go func(o *Obligation) {
+		go func(g []*Obligation) {
 			defer wg.Done()
 			defer func() { <-sem }()
-			r, _ := solve(o.CoverQuery(header), "cover_"+o.Name, timeout, false)
-			// only a definite "unsat" means the program point is unreachable under the assumptions;
-			// "unknown" (typical with quantified assumptions) is not evidence of vacuity
-			o.Cover = r.Status
-			if r.Status == "unsat" && debugCoverDir != "" {
-				os.MkdirAll(debugCoverDir, 0o755)
-				os.WriteFile(debugCoverDir+"/"+sanitize(o.Name)+".smt2", []byte(o.CoverQuery(header)), 0o644)
+			sort.SliceStable(g, func(i, j int) bool { return g[i].Prefix < g[j].Prefix })
+			var body strings.Builder
+			next := 0
+			first := g[0]
+			maxP := g[len(g)-1].Prefix
+			for i := 0; i <= maxP; i++ {
+				for next < len(g) && g[next].Prefix == i {
+					fmt.Fprintf(&body, "(push 1)\n(assert %s)\n(check-sat)\n(pop 1)\n", g[next].Reach)
+					next++
+				}
+				if i < maxP && first.relevant(i) {
+					body.WriteString(first.script.lines[i])
+					body.WriteString("\n")
+				}
 			}
-			if r.Status == "unsat" {
-				mu.Lock()
-				vac = append(vac, o)
-				mu.Unlock()
+			text := body.String()
+			q := header.headerFor(text) + text
+			r := runBatchSolver(solvers[0], q, filepath.Join(getWorkDir(), fmt.Sprintf("cv_%d", time.Now().UnixNano())), 1500*time.Millisecond, time.Duration(5+2*len(g))*time.Second, context.Background())
+			n := 0
+			for _, a := range strings.Fields(r.Output) {
+				if a != "sat" && a != "unsat" && a != "unknown" && a != "timeout" {
+					continue
+				}
+				if n < len(g) {
+					g[n].Cover = a
+					if a == "unsat" {
+						if debugCoverDir != "" {
+							os.MkdirAll(debugCoverDir, 0o755)
+							os.WriteFile(debugCoverDir+"/"+sanitize(g[n].Name)+".smt2", []byte(g[n].CoverQuery(header)), 0o644)
+						}
+						mu.Lock()
+						vac = append(vac, g[n])
+						mu.Unlock()
+					}
+				}
+				n++
 			}
-		}(o)
+		}(g)
 	}
 	wg.Wait()
 	return vac
@@ -305,3 +378,91 @@ func init() { debugCoverDir = os.Getenv("STICKVC_COVERDIR") }
 var debugCoverDir string
 
 var phase1Only bool
+
+// runBatches (phase 0): the obligations that arise in the same basic block of the same verification unit
+// share their set of relevant assumptions; they are checked in ONE incremental solver session in which
+// the script is fed in order and every obligation is checked (push / check-sat / pop) at exactly the
+// point where it arises, so that only earlier assumptions are visible to it. Anything not answered
+// "unsat" here goes on to the per-obligation phases.
+func runBatches(todo []*Obligation, u *Universe) {
+	type gkey struct {
+		sc  *Script
+		blk int
+	}
+	groups := map[gkey][]*Obligation{}
+	var order []gkey
+	for _, o := range todo {
+		if o.script == nil || o.Kind == "lemma" {
+			continue
+		}
+		k := gkey{o.script, o.Blk}
+		if _, ok := groups[k]; !ok {
+			order = append(order, k)
+		}
+		groups[k] = append(groups[k], o)
+	}
+	sem := make(chan struct{}, 8)
+	var wg sync.WaitGroup
+	for _, k := range order {
+		g := groups[k]
+		if len(g) < 2 {
+			continue
+		}
+		wg.Add(1)
+		sem <- struct{}{}
+		go func(g []*Obligation) {
+			defer wg.Done()
+			defer func() { <-sem }()
+			sort.SliceStable(g, func(i, j int) bool { return g[i].Prefix < g[j].Prefix })
+			var body strings.Builder
+			next := 0
+			first := g[0]
+			maxP := g[len(g)-1].Prefix
+			for i := 0; i <= maxP; i++ {
+				for next < len(g) && g[next].Prefix == i {
+					fmt.Fprintf(&body, "(push 1)\n(assert %s)\n(assert (not %s))\n(check-sat)\n(pop 1)\n", g[next].Reach, g[next].Cond)
+					next++
+				}
+				if i < maxP && first.relevant(i) {
+					body.WriteString(first.script.lines[i])
+					body.WriteString("\n")
+				}
+			}
+			text := body.String()
+			q := u.headerFor(text) + text
+			ctx, cancel := context.WithCancel(context.Background())
+			defer cancel()
+			ch := make(chan SolverResult, 2)
+			budget := time.Duration(2+len(g)/2) * time.Second
+			for _, sp := range solvers[:2] {
+				go func(sp solverSpec) {
+					ch <- runBatchSolver(sp, q, filepath.Join(getWorkDir(), fmt.Sprintf("b0_%s_%d", sp.name, time.Now().UnixNano())), 3*time.Second, budget+10*time.Second, ctx)
+				}(sp)
+			}
+			for i := 0; i < 2; i++ {
+				r := <-ch
+				answers := strings.Fields(r.Output)
+				n := 0
+				for _, a := range answers {
+					if a != "sat" && a != "unsat" && a != "unknown" && a != "timeout" {
+						continue
+					}
+					if n < len(g) && a == "unsat" && g[n].Status != "unsat" {
+						g[n].Status, g[n].Solver, g[n].Seconds = "unsat", r.Solver+"(batch)", r.Seconds/float64(len(g))
+					}
+					n++
+				}
+				done := true
+				for _, o := range g {
+					if o.Status != "unsat" {
+						done = false
+					}
+				}
+				if done {
+					break
+				}
+			}
+		}(g)
+	}
+	wg.Wait()
+}
